@@ -98,6 +98,20 @@ CHECKS = {
         "runtime monitoring: reference-model oracle over unit.calls + recorder on _add_procedure_calls",
         "3/C08",
     ),
+    "C10": (
+        "exploration",
+        "Runtime monitor over complete FORD runs (forked child): (a) sys.addaudithook file-system event log - an entity page or copied "
+        "source opened for writing twice in one run; (b) icontract post-condition on NameSelector.get_name - (directory, lower-cased "
+        "stem) -> item injective; (c) recorder on the `anchor` property - an anchor string that stands for two items and occurs on a "
+        "page; (d) after the run: distinct page-owning entities have distinct URLs (case-insensitively), the page at an entity's URL "
+        "carries its tracer word, src/<name> equals the defining file. Workload: projects built to collide (same names across modules/"
+        "files/directories, letter-case variants, operator/assignment interfaces, generics with explicit bodies, unnamed programs/block "
+        "data, submodule named like a module, equal file base names).",
+        "Only writes below the entity directories are counted (css/js are touch()ed by design); one known finding (flat src/ copies of "
+        "equal base names) is suppressed by an exact predicate.",
+        "runtime monitoring: audit-hook fs event log + icontract invariant on NameSelector + offline site checks",
+        "3/C10",
+    ),
     "C14": (
         "exploration",
         "Runtime monitor (metamorphic) on the real fixed-to-free converter + reader + parser: each generated program is written "
